@@ -543,7 +543,10 @@ impl<'a> Gen<'a> {
         let mut candidates = Vec::new();
         for l in 1..=r.lines.len() {
             let is_tag = r.blocks.iter().any(|b| b.start_line == l || b.end_line == l);
-            if is_tag || r.lines.get(l) == r.lines.get(l - 1) {
+            if is_tag
+                || r.lines.get(l) == r.lines.get(l - 1)
+                || (l >= 2 && r.lines.get(l - 2) == r.lines.get(l - 1))
+            {
                 continue;
             }
             if !r.blocks.iter().any(|b| b.start_line < l && l < b.end_line) {
